@@ -2,7 +2,7 @@
    geometry of the grid operations, the simulation grid -> sizes-only instance (= Model/Scrollable.s_render), and the
    cell-level statement: the rendered grid is rows [p, p+maxrow) of the wrapped grid cut/padded to maxcol columns. *)
 From Coq Require Import ZArith List Bool Lia ZifyBool.
-From Urwid Require Import PyBase Canvas CanvasGrid CanvasHeap CanvasFacts CanvasProg
+From Urwid Require Import PyBase Canvas CanvasGrid CanvasHeap CanvasFacts CanvasProg CanvasProgH
   ScrollBase scrollable_gen Scrollable ScrollCanvas ScrollableProofs ScrollCanvasProofs.
 Import ListNotations.
 Open Scope Z_scope.
@@ -141,12 +141,246 @@ Theorem sg_render_is_s_render st maxcol maxrow sel gv st' g' :
     cur (gco g') = v_cursor v /\ grect (gg g').
 Proof.
   intros G H. unfold sg_render in H.
-  destruct (grid_dims_sim st maxcol maxrow sel _ _ (dims_of (ob_of_grid gv sel)) st' g'
-              ltac:(unfold R_gd, dims_of, ob_of_grid; cbn; auto) H) as (d' & E & G' & Ec & Er & Eu).
+  assert (R0 : R_gd (GV (gg gv) (gco gv) false false) (dims_of (ob_of_grid gv sel))).
+  { unfold R_gd, dims_of, ob_of_grid. cbn [gg gco d_cols d_rows d_cur c_cols c_rows c_cursor]. auto. }
+  destruct (grid_dims_sim st maxcol maxrow sel _ _ _ st' g' R0 H) as (d' & E & G' & Ec & Er & Eu).
   pose proof (dims_is_s_render st maxcol maxrow (ob_of_grid gv sel)) as D.
-  cbn [ob_of_grid c_selectable c_cursor] in D. cbn [ob_of_grid c_cursor] in E. unfold dims_of in E. cbn [ob_of_grid c_cols c_rows c_cursor] in E.
-  unfold dims_of in D. cbn [c_cols c_rows c_cursor] in D. rewrite E in D.
+  change (c_selectable (ob_of_grid gv sel)) with sel in D.
+  change (c_cursor (ob_of_grid gv sel)) with (cur (gco gv)) in D.
+  rewrite E in D.
   destruct (s_render st maxcol maxrow _) as [[st2 v]|]; [|discriminate].
-  injection D as <- ->. exists v. split; [reflexivity|]. unfold dims_of_view in *. cbn [d_cols d_rows d_cur c_cols] in *.
-  repeat split; try lia; try assumption. symmetry. exact Eu.
+  injection D as <- ->. exists v. split; [reflexivity|]. unfold dims_of_view in *. cbn [d_cols d_rows d_cur] in *.
+  change (c_cols (ob_of_grid gv sel)) with (gwidth (gg gv)) in Ec.
+  split; [symmetry; exact Ec|]. split; [symmetry; exact Er|]. split; [symmetry; exact Eu|exact G'].
+Qed.
+
+(* ------------------------------------------------------------------ (E) the rendered grid, cell for cell *)
+Definition gclean (g : grid) : Prop := Forall (fun r : row => row_cleanb r = true) g.
+
+Lemma window_blank w n : 0 <= n <= w -> g_window (blank_row w) 0 n = blank_row n.
+Proof.
+  intros H. unfold g_window.
+  assert (T : takez (n - 0) (dropz 0 (blank_row w)) = blank_row n).
+  { rewrite dropz_le0 by lia. unfold blank_row. rewrite takez_repeatz by lia. f_equal. lia. }
+  pose proof (trim_cells_all (blank_row n) (row_clean_blank n)) as A.
+  unfold trim_cells in *. rewrite T. rewrite zlen_blank_row in A. replace (Z.max 0 n - 0) with n in A by lia.
+  rewrite dropz_le0 in A by lia. rewrite takez_all in A by (rewrite zlen_blank_row; lia). exact A.
+Qed.
+
+Lemma takez_map {A B} (f : A -> B) n l : takez n (map f l) = map f (takez n l).
+Proof. unfold takez. apply firstn_map. Qed.
+Lemma dropz_map {A B} (f : A -> B) n l : dropz n (map f l) = map f (dropz n l).
+Proof. unfold dropz. apply skipn_map. Qed.
+
+Lemma blank_row_0 : blank_row 0 = [].
+Proof. reflexivity. Qed.
+Lemma blank_grid_nonpos w n : n <= 0 -> blank_grid w n = [].
+Proof. intros. unfold blank_grid. apply repeatz_nonpos. assumption. Qed.
+
+(* the grid operations, in the shapes render uses them *)
+Lemma step_padr gv w h r :
+  gfin gv = false -> rect (gg gv) w h -> 0 < r ->
+  o_padr grid_ops gv r =
+    Ok (GV (map (fun R : row => g_window R 0 w ++ blank_row r) (gg gv)) (translate_coords (gco gv) 0 0) false false).
+Proof.
+  intros F R Hr. destruct (rect_dims _ _ _ R) as (Ew & Eh & _). destruct R as (Hw & _).
+  cbn [grid_ops o_padr]. unfold gguard. rewrite F. cbn [negb andb]. replace (0 <? gwidth (gg gv) + Z.min r 0) with true by lia.
+  replace (r <? 0) with false by lia. f_equal. f_equal. unfold g_pad_trim_lr. rewrite Ew. apply map_ext. intros R0.
+  replace (Z.max 0 0) with 0 by lia. replace (Z.max 0 (- 0)) with 0 by lia. replace (Z.max 0 (- r)) with 0 by lia.
+  replace (Z.max 0 r) with r by lia. rewrite blank_row_0, Z.sub_0_r. reflexivity.
+Qed.
+
+Lemma step_trimr gv w h tr :
+  gfin gv = false -> rect (gg gv) w h -> 0 < tr < w ->
+  exists co, o_padr grid_ops gv (- tr) = Ok (GV (map (fun R : row => g_window R 0 (w - tr)) (gg gv)) co false false).
+Proof.
+  intros F R Hr. destruct (rect_dims _ _ _ R) as (Ew & Eh & _).
+  cbn [grid_ops o_padr]. unfold gguard. rewrite F. cbn [negb andb]. replace (0 <? gwidth (gg gv) + Z.min (- tr) 0) with true by lia.
+  eexists. f_equal. f_equal. unfold g_pad_trim_lr. rewrite Ew. apply map_ext. intros R0.
+  replace (Z.max 0 0) with 0 by lia. replace (Z.max 0 (- 0)) with 0 by lia. replace (Z.max 0 (- - tr)) with tr by lia.
+  replace (Z.max 0 (- tr)) with 0 by lia. rewrite blank_row_0, app_nil_r. reflexivity.
+Qed.
+
+Lemma step_padb gv w h b :
+  gfin gv = false -> rect (gg gv) w h -> 0 < b ->
+  o_padb grid_ops gv b = Ok (GV (gg gv ++ blank_grid w b) (gco gv) false false).
+Proof.
+  intros F R Hb. destruct (rect_dims _ _ _ R) as (Ew & Eh & _). destruct R as (_ & Hh & Hl & _).
+  cbn [grid_ops o_padb]. unfold gguard. rewrite F. cbn [negb andb]. replace (0 <? gheight (gg gv) + Z.min b 0) with true by lia.
+  f_equal. f_equal.
+  - unfold g_pad_trim_tb. rewrite Ew, Eh. replace (Z.max 0 0) with 0 by lia. replace (Z.max 0 (- 0)) with 0 by lia.
+    replace (Z.max 0 (- b)) with 0 by lia. replace (Z.max 0 b) with b by lia.
+    rewrite (blank_grid_nonpos w 0) by lia. rewrite dropz_le0 by lia. rewrite takez_all by lia. reflexivity.
+  - unfold g_padtb_coords. replace ((0 <? 0) || (b <? 0)) with false by lia. replace (0 <? 0) with false by lia. reflexivity.
+Qed.
+
+Lemma step_trim gv w h t :
+  gfin gv = false -> rect (gg gv) w h -> 0 <= t < h ->
+  exists co, o_trim grid_ops gv t = Ok (GV (dropz t (gg gv)) co false false).
+Proof.
+  intros F R Ht. destruct (rect_dims _ _ _ R) as (Ew & Eh & _).
+  cbn [grid_ops o_trim]. unfold gguard. rewrite F. cbn [negb andb]. replace ((0 <=? t) && (t <? gheight (gg gv))) with true by lia.
+  eexists. reflexivity.
+Qed.
+
+Lemma step_trim_end gv w h e :
+  gfin gv = false -> rect (gg gv) w h -> 0 < e < h ->
+  exists co, o_trim_end grid_ops gv e = Ok (GV (takez (h - e) (gg gv)) co false false).
+Proof.
+  intros F R He. destruct (rect_dims _ _ _ R) as (Ew & Eh & _).
+  cbn [grid_ops o_trim_end]. unfold gguard. rewrite F. cbn [negb andb]. replace ((0 <? e) && (e <? gheight (gg gv))) with true by lia.
+  rewrite Eh. eexists. reflexivity.
+Qed.
+
+Lemma step_nocursor gv c : gfin gv = false -> exists gv', when c (o_nocursor grid_ops) gv = Ok gv' /\ gg gv' = gg gv /\ gfin gv' = false.
+Proof.
+  intros F. unfold when. destruct c; [|exists gv; auto].
+  cbn [grid_ops o_nocursor]. unfold gguard. rewrite F. cbn [negb andb]. eexists. split; [reflexivity|]. split; reflexivity.
+Qed.
+
+Definition row_fit (w maxcol : Z) (R : row) : row :=
+  g_window R 0 (Z.min w maxcol) ++ blank_row (Z.max 0 (maxcol - w)).
+
+Lemma spec_grid_eq g p maxcol maxrow :
+  spec_grid g p maxcol maxrow =
+  map (row_fit (gwidth g) maxcol) (takez maxrow (dropz p g)) ++ blank_grid maxcol (Z.max 0 (maxrow - gheight g)).
+Proof. reflexivity. Qed.
+
+Lemma row_fit_exact w R : zlen R = w -> row_cleanb R = true -> row_fit w w R = R.
+Proof.
+  intros Hl Hc. unfold row_fit, g_window. replace (Z.min w w) with (zlen R) by lia. rewrite trim_cells_all by exact Hc.
+  replace (Z.max 0 (w - w)) with 0 by lia. rewrite blank_row_0. apply app_nil_r.
+Qed.
+
+Theorem sg_render_spec st maxcol maxrow sel g co fi lf :
+  1 <= maxrow -> 1 <= maxcol -> grect g -> gclean g -> cursor_ok (cur co) (gheight g) ->
+  exists st' g',
+    sg_render st maxcol maxrow sel (GV g co fi lf) = Ok (st', g') /\
+    gg g' = spec_grid g (trim_top st') maxcol maxrow /\
+    0 <= trim_top st' <= Z.max 0 (gheight g - maxrow).
+Proof.
+  intros Hmr Hmc G Cl Hcur. pose proof (grect_rect _ G) as R. set (w := gwidth g) in *. set (h := gheight g) in *.
+  pose proof R as (Hw & Hh & Hl & Fw).
+  unfold sg_render. cbn [gg gco]. set (gv0 := GV g co false false).
+  unfold render_skel.
+  change (o_cols grid_ops gv0) with w. change (o_rows grid_ops gv0) with h.
+  (* step 1: pad on the right *)
+  set (g1 := if w <=? maxcol then map (row_fit w maxcol) g else g).
+  set (w1 := Z.max w maxcol).
+  assert (S1 : exists gv1, when ((w <=? maxcol) && (0 <? maxcol - w)) (fun c => o_padr grid_ops c (maxcol - w)) gv0 = Ok gv1 /\
+                           gfin gv1 = false /\ gg gv1 = g1 /\ cur (gco gv1) = cur co /\ rect g1 w1 h).
+  { unfold when. destruct ((w <=? maxcol) && (0 <? maxcol - w)) eqn:B1.
+    - rewrite (step_padr gv0 w h (maxcol - w) eq_refl R ltac:(lia)). eexists. split; [reflexivity|]. cbn [gfin gg gco].
+      split; [reflexivity|]. subst g1. replace (w <=? maxcol) with true by lia.
+      assert (E : map (fun R0 : row => g_window R0 0 w ++ blank_row (maxcol - w)) g = map (row_fit w maxcol) g).
+      { apply map_ext. intros R0. unfold row_fit. replace (Z.min w maxcol) with w by lia. replace (Z.max 0 (maxcol - w)) with (maxcol - w) by lia. reflexivity. }
+      split; [exact E|]. split; [apply cur_translate_00|].
+      rewrite <- E. pose proof (rect_padr g w h (maxcol - w) R ltac:(lia)) as R1. unfold g_pad_trim_lr in R1.
+      fold w in R1. subst w1. replace (Z.max w maxcol) with (w + (maxcol - w)) by lia.
+      assert (E2 : map (fun R0 : row => blank_row (Z.max 0 0) ++ g_window R0 (Z.max 0 (- 0)) (w - Z.max 0 (- (maxcol - w))) ++ blank_row (Z.max 0 (maxcol - w))) g
+                   = map (fun R0 : row => g_window R0 0 w ++ blank_row (maxcol - w)) g).
+      { apply map_ext. intros R0. replace (Z.max 0 0) with 0 by lia. replace (Z.max 0 (- 0)) with 0 by lia.
+        replace (Z.max 0 (- (maxcol - w))) with 0 by lia. replace (Z.max 0 (maxcol - w)) with (maxcol - w) by lia.
+        rewrite blank_row_0, Z.sub_0_r. reflexivity. }
+      rewrite E2 in R1. exact R1.
+    - exists gv0. split; [reflexivity|]. split; [reflexivity|]. cbn [gv0 gg gco]. subst g1 w1.
+      destruct (w <=? maxcol) eqn:Ew.
+      + assert (w = maxcol) by lia. subst maxcol.
+        assert (E : map (row_fit w w) g = g).
+        { rewrite <- (map_id g) at 2. apply map_ext_in. intros R0 HR. unfold gclean in Cl. rewrite Forall_forall in Cl, Fw.
+          apply row_fit_exact; [apply Fw; exact HR|apply Cl; exact HR]. }
+        rewrite E. split; [reflexivity|]. split; [reflexivity|]. replace (Z.max w w) with w by lia. exact R.
+      + split; [reflexivity|]. split; [reflexivity|]. replace (Z.max w maxcol) with w by lia. exact R. }
+  destruct S1 as (gv1 & E1 & F1 & G1 & C1 & R1). rewrite E1.
+  (* step 2: pad at the bottom *)
+  set (g2 := g1 ++ blank_grid w1 (Z.max 0 (maxrow - h))).
+  set (h2 := Z.max h maxrow).
+  assert (S2 : exists gv2, when ((h <=? maxrow) && (0 <? maxrow - h)) (fun c => o_padb grid_ops c (maxrow - h)) gv1 = Ok gv2 /\
+                           gfin gv2 = false /\ gg gv2 = g2 /\ cur (gco gv2) = cur co /\ rect g2 w1 h2).
+  { unfold when. rewrite <- G1 in R1. destruct ((h <=? maxrow) && (0 <? maxrow - h)) eqn:B2.
+    - rewrite (step_padb gv1 w1 h (maxrow - h) F1 R1 ltac:(lia)). eexists. split; [reflexivity|]. cbn [gfin gg gco].
+      split; [reflexivity|]. subst g2. rewrite G1. replace (Z.max 0 (maxrow - h)) with (maxrow - h) by lia.
+      split; [reflexivity|]. split; [exact C1|].
+      pose proof (rect_padb (gg gv1) w1 h (maxrow - h) R1 ltac:(lia)) as Rb. unfold g_pad_trim_tb in Rb.
+      destruct (rect_dims _ _ _ R1) as (Ew1 & Eh1 & _). rewrite Ew1, Eh1 in Rb.
+      replace (Z.max 0 0) with 0 in Rb by lia. replace (Z.max 0 (- 0)) with 0 in Rb by lia.
+      replace (Z.max 0 (- (maxrow - h))) with 0 in Rb by lia. replace (Z.max 0 (maxrow - h)) with (maxrow - h) in Rb by lia.
+      rewrite (blank_grid_nonpos w1 0) in Rb by lia. rewrite dropz_le0 in Rb by lia.
+      rewrite takez_all in Rb by (destruct R1 as (_ & _ & L & _); lia). cbn [app] in Rb. rewrite G1 in Rb.
+      subst h2. replace (Z.max h maxrow) with (h + (maxrow - h)) by lia. exact Rb.
+    - exists gv1. split; [reflexivity|]. split; [exact F1|]. subst g2 h2.
+      rewrite (blank_grid_nonpos w1 (Z.max 0 (maxrow - h))) by lia. rewrite app_nil_r.
+      split; [exact G1|]. split; [exact C1|]. replace (Z.max h maxrow) with h by lia. rewrite <- G1. exact R1. }
+  destruct S2 as (gv2 & E2 & F2 & G2 & C2 & R2). rewrite E2.
+  destruct ((w <=? maxcol) && (h <=? maxrow)) eqn:Hfit.
+  - (* everything fits *)
+    eexists. eexists. split; [reflexivity|]. cbn [trim_top]. split; [|lia].
+    rewrite G2, spec_grid_eq. fold w h. subst g2 g1 w1. replace (w <=? maxcol) with true by lia.
+    rewrite dropz_le0 by lia. rewrite takez_all by lia. replace (Z.max w maxcol) with maxcol by lia. reflexivity.
+  - (* the render has to trim *)
+    change (o_rows grid_ops gv2) with (gheight (gg gv2)). change (o_cursor grid_ops gv2) with (cur (gco gv2)).
+    destruct (rect_dims _ _ _ R2) as (Ew2 & Eh2 & _). rewrite G2, Eh2, C2.
+    pose proof (adjust_spec (trim_top st) (action st) (old_cursor st) h2 (cur co) maxcol maxrow Hmr
+                  ltac:(unfold cursor_ok in *; destruct (cur co) as [[? ?]|]; [subst h2; lia|exact I])) as Ha.
+    destruct (adjust_trim_top_gen (trim_top st) (action st) (old_cursor st) h2 (cur co) (maxcol, maxrow)) as [[tp act] old].
+    destruct Ha as [_ Htp].
+    (* step 3: trim the top *)
+    assert (S3 : exists gv3, when (0 <? tp) (fun c => o_trim grid_ops c tp) gv2 = Ok gv3 /\
+                             gfin gv3 = false /\ gg gv3 = dropz tp g2 /\ rect (dropz tp g2) w1 (h2 - tp)).
+    { unfold when. rewrite <- G2 in R2. destruct (0 <? tp) eqn:Et.
+      - destruct (step_trim gv2 w1 h2 tp F2 R2 ltac:(subst h2; lia)) as (co3 & E3). rewrite E3. eexists. split; [reflexivity|].
+        cbn [gfin gg]. split; [reflexivity|]. rewrite G2. split; [reflexivity|]. rewrite <- G2. apply (rect_drop (gg gv2) w1 h2 tp); [exact R2|subst h2; lia].
+      - exists gv2. split; [reflexivity|]. split; [exact F2|]. assert (tp = 0) by lia. subst tp. rewrite dropz_le0 by lia.
+        split; [exact G2|]. rewrite Z.sub_0_r. rewrite <- G2. exact R2. }
+    destruct S3 as (gv3 & E3 & F3 & G3 & R3). rewrite E3.
+    (* step 4: trim the end *)
+    set (g4 := takez maxrow (dropz tp g2)).
+    assert (S4 : exists gv4, when (0 <? h - maxrow - tp) (fun c => o_trim_end grid_ops c (h - maxrow - tp)) gv3 = Ok gv4 /\
+                             gfin gv4 = false /\ gg gv4 = g4 /\ rect g4 w1 maxrow).
+    { unfold when. rewrite <- G3 in R3. destruct (0 <? h - maxrow - tp) eqn:Ee.
+      - destruct (step_trim_end gv3 w1 (h2 - tp) (h - maxrow - tp) F3 R3 ltac:(subst h2; lia)) as (co4 & E4). rewrite E4.
+        eexists. split; [reflexivity|]. cbn [gfin gg]. split; [reflexivity|]. subst g4. rewrite G3.
+        replace (h2 - tp - (h - maxrow - tp)) with maxrow by (subst h2; lia). split; [reflexivity|].
+        rewrite <- G3. apply (rect_take (gg gv3) w1 (h2 - tp) maxrow); [exact R3|subst h2; lia].
+      - exists gv3. split; [reflexivity|]. split; [exact F3|]. subst g4.
+        assert (Hlen : zlen (dropz tp g2) = maxrow).
+        { rewrite <- G3. destruct R3 as (_ & _ & L & _). rewrite L. subst h2. lia. }
+        rewrite takez_all by lia. split; [exact G3|]. rewrite <- G3.
+        replace (rect (gg gv3) w1 maxrow) with (rect (gg gv3) w1 (h2 - tp)) by (f_equal; subst h2; lia). exact R3. }
+    destruct S4 as (gv4 & E4 & F4 & G4 & R4). rewrite E4.
+    (* step 5: trim on the right *)
+    set (g5 := if 0 <? w - maxcol then map (fun R0 : row => g_window R0 0 maxcol) g4 else g4).
+    assert (S5 : exists gv5, when (0 <? w - maxcol) (fun c => o_padr grid_ops c (- (w - maxcol))) gv4 = Ok gv5 /\
+                             gfin gv5 = false /\ gg gv5 = g5).
+    { unfold when. rewrite <- G4 in R4. subst g5. destruct (0 <? w - maxcol) eqn:Er.
+      - assert (w1 = w) by (subst w1; lia). 
+        destruct (step_trimr gv4 w1 maxrow (w - maxcol) F4 R4 ltac:(lia)) as (co5 & E5). rewrite E5.
+        eexists. split; [reflexivity|]. cbn [gfin gg]. split; [reflexivity|]. rewrite G4.
+        replace (w1 - (w - maxcol)) with maxcol by lia. reflexivity.
+      - exists gv4. split; [reflexivity|]. split; [exact F4|exact G4]. }
+    destruct S5 as (gv5 & E5 & F5 & G5). rewrite E5.
+    destruct (step_nocursor gv5 (match o_cursor grid_ops gv5 with Some (_, y) => (maxrow <=? y) || (y <? 0) | None => false end) F5)
+      as (gv6 & E6 & G6 & F6).
+    rewrite E6. eexists. eexists. split; [reflexivity|]. cbn [trim_top].
+    split; [|subst h2; lia].
+    rewrite G6, G5, spec_grid_eq. fold w h. subst g5 g4 g2 g1 w1.
+    destruct (w <=? maxcol) eqn:Ew.
+    + (* not wider than the view: then it is higher *)
+      assert (Hh' : maxrow < h) by lia.
+      replace (0 <? w - maxcol) with false by lia.
+      rewrite (blank_grid_nonpos _ (Z.max 0 (maxrow - h))) by lia. rewrite (blank_grid_nonpos maxcol (Z.max 0 (maxrow - h))) by lia.
+      rewrite !app_nil_r. rewrite dropz_map, takez_map. reflexivity.
+    + replace (0 <? w - maxcol) with true by lia. replace (Z.max w maxcol) with w by lia.
+      assert (Ef : forall R0, row_fit w maxcol R0 = g_window R0 0 maxcol).
+      { intros R0. unfold row_fit. replace (Z.min w maxcol) with maxcol by lia. replace (Z.max 0 (maxcol - w)) with 0 by lia.
+        rewrite blank_row_0. apply app_nil_r. }
+      rewrite (map_ext _ _ Ef).
+      destruct (Z_lt_le_dec maxrow h) as [Hhi|Hlo].
+      * rewrite (blank_grid_nonpos _ (Z.max 0 (maxrow - h))) by lia. rewrite (blank_grid_nonpos maxcol (Z.max 0 (maxrow - h))) by lia.
+        rewrite !app_nil_r. reflexivity.
+      * assert (tp = 0) by (subst h2; lia). subst tp. rewrite !dropz_le0 by lia.
+        replace (Z.max 0 (maxrow - h)) with (maxrow - h) by lia.
+        rewrite (takez_all maxrow g) by lia.
+        rewrite takez_all by (rewrite zlen_app, zlen_blank_grid; lia).
+        rewrite map_app. f_equal. unfold blank_grid. rewrite map_repeatz. f_equal. apply window_blank. lia.
 Qed.
